@@ -55,7 +55,7 @@ func HarnessC05BuiltinsOverMapsAndSets() {
 	if verifrt.Bool() {
 		arg = set
 	}
-	which := verifrt.Choose(6)
+	which := verifrt.Choose(9)
 	if which == 5 {
 		// csv: keep the keys to letters (the csv writer's quoting decisions per
 		// byte are not what is examined here)
@@ -73,6 +73,17 @@ func HarnessC05BuiltinsOverMapsAndSets() {
 			return c05Render(Keys(ctx, arg))
 		case 3:
 			return c05Render(List(ctx, arg))
+		case 6:
+			// a map / set nested in a list, printed
+			return c05Render(String(ctx, object.NewList([]object.Object{arg, object.NewInt(1)})))
+		case 7:
+			// (printing through fmt verbs is not examined: the engine's fmt model
+			// renders Go maps from its own ordered representation)
+			return c05Render(String(ctx, arg))
+		case 8:
+			// a map nested in a map
+			outer := object.NewMap(map[string]object.Object{"k": arg, "j": object.NewInt(2)})
+			return c05Render(String(ctx, outer))
 		case 5:
 			// csv text of a list of maps: header and columns in a fixed order
 			return c05Render(Encode(ctx, object.NewList([]object.Object{m, m}), object.NewString("csv")))
